@@ -73,6 +73,9 @@ def shards(tier):
                 k = {1: 1, 2: 4, 3: 8}[depth] * (4 if W == 3 and depth == 3 else 1)
                 for i in range(k):
                     out.append({"buf": buf, "kind": "chain", "mech": mech, "depth": depth, "W": W, "slice": [i, k]})
+    # chains of 34 .. 70 layers (every layer rewrites one unit): data that lives dozens of levels below the top
+    for mech in ("vdi", "qcow2", "hds"):
+        out.append({"buf": 8192, "kind": "deep-chain", "mech": mech})
     out.append({"buf": 8192, "kind": "qcow2-snap", "slice": [0, 1]})
     out.append({"buf": 512, "kind": "qcow2-snap-seq"})
     out.append({"buf": 8192, "kind": "locate"})
@@ -89,6 +92,9 @@ def run_shard(shard, ctx):
         _shard_vhdx_locate(shard, ctx)
     elif kind == "chain":
         _shard_chain(shard, ctx)
+    elif kind == "deep-chain":
+        for depth in (34, 70):
+            run_case({"kind": "deep-chain", "mech": shard["mech"], "depth": depth}, ctx)
     elif kind == "qcow2-snap":
         _shard_qsnap(shard, ctx)
     elif kind == "qcow2-snap-seq":
@@ -117,6 +123,8 @@ def run_case(case, ctx):
             _case_vhdx_locate(case, ctx, d)
         elif kind == "chain":
             _case_chain(case, ctx, d, {})
+        elif kind == "deep-chain":
+            _case_deep_chain(case, ctx)
         elif kind == "qcow2-snap":
             _case_qsnap(case, ctx)
         elif kind == "qcow2-snap-seq":
@@ -765,6 +773,57 @@ def _hosted_extent(B, part, slots, grain, layer, g0):
             ext.append((off, kind, pl, ln))
         img.ext = ext
     return img
+
+
+def _case_deep_chain(case, ctx):
+    """Layer k holds unit k (and every 9th layer also zeroes / rewrites a neighbour); unit u of the top view comes from the
+    deepest layer that wrote it -- up to depth-1 levels below the top."""
+    mech, depth = case["mech"], case["depth"]
+    unit = 4096
+    W = depth + 6
+    size = W * unit
+    ctx.model(case)
+    ctx.executions += 1
+    ctx.sample(case)
+    ctx.nontrivial += 1
+    disk = None
+    top = None
+    with ctx.watch(case, 300):
+        for k in range(depth):
+            st = [HOLE] * W
+            st[k] = DATA
+            if k % 9 == 4:
+                st[(k + 3) % W] = DATA
+            slots = [None] * W
+            for n, i in enumerate(j for j in range(W) if st[j] == DATA):
+                slots[i] = n
+            disk = GuestDisk(size, unit, list(st), k + 1, disk)
+            if mech == "vdi":
+                from dissect.hypervisor.disk.vdi import VDI
+
+                from mc.builders import vdi as B
+
+                img = B.build(st, slots, unit, layer=k + 1, image_type=4 if k else 1, parent_uuid=b"\x11" * 16 if k else b"")
+                top = VDI(img.bytesio(), parent=top) if k else VDI(img.bytesio())
+            elif mech == "qcow2":
+                from dissect.hypervisor.disk.qcow2 import QCow2
+
+                from mc.builders import qcow2 as B
+
+                qs = ["N" if x == DATA else "U" for x in st]
+                img, _ = B.build(qs, slots, 12, 3, layer=k + 1, backing_name="below.qcow2" if k else None)
+                top = QCow2(img.bytesio(), backing_file=top) if k else QCow2(img.bytesio())
+            else:
+                from dissect.hypervisor.disk.hdd import HDS
+
+                from mc.builders import hdd as B
+
+                hs = [s_ + 1 if s_ is not None else None for s_ in slots]
+                img = B.build_hds(st, hs, unit // 512, 2 - k % 2, W * (unit // 512), layer=k + 1)
+                top = HDS(img.bytesio(), parent=top) if k else HDS(img.bytesio())
+        reqs = [(0, size), (unit - 1, 2 * unit + 2), (33 * unit - 5, 3 * unit), ((depth - 1) * unit, 7 * unit), (size - 100, 100)]
+        _count_sources(ctx, disk, reqs)
+        compare_reads(ctx, case, top, disk, reqs, f"{mech}.deep-chain{depth}.read")
 
 
 # ---- QCOW2 internal snapshots: every view, interleaved operations on the views (they share caches and the handle) ---
